@@ -19,7 +19,7 @@ func init() {
 			aliasRuleFiltered(ruleC17Dep, "C17.dep", "C08.selection", 1, func(o Oblig) bool { return strings.Contains(o.Key, "selection by NewestInSet") }),
 			aliasRuleFiltered(ruleC06Ctor, "C06.ctor", "C08.inside", 2, func(o Oblig) bool {
 				return strings.Contains(o.Key, "ResolveRelative") && strings.Contains(o.Key, "subPath")
-			}), ruleDiagsReachResult("C08.diagresult"), aliasRule(ruleC06SubRaw, "C06.subraw", "C08.subraw", 1), ruleValueReceiverWrites("C08.valuerecv", "/sourcebundle")},
+			}), ruleDiagsReachResult("C08.diagresult"), ruleRootSymmetric("C08.symmetric"), ruleForwardRefusesUnknownOnly("C08.forward"), aliasRule(ruleC06SubRaw, "C06.subraw", "C08.subraw", 1), ruleValueReceiverWrites("C08.valuerecv", "/sourcebundle")},
 		NotDecided: []string{
 			"transitive closure over arbitrary dependency graphs and the content of fetched files (run-time facts)",
 			"that looked-up paths exist on disk",
@@ -28,7 +28,7 @@ func init() {
 	register("C09", &propDef{
 		Title: "A bundle survives being re-opened and archived",
 		Rules: []func(*Checker){ruleC09Fields, ruleC09Archive, ruleChecksum("C09.checksum"), ruleC06ManifestAs("C09.addrs"),
-			ruleRootSymmetric("C09.symmetric"), ruleLinkPrecise("C09.linkprecise"), ruleC09Answers, ruleLocalMemo("C09.localmemo"), ruleGuardOwnField("C09.metaguard"), ruleMetaVerbatim("C09.metaverbatim"), ruleExtractOnlyUnpacks("C09.extractonly"), aliasRule(ruleC01Sinks, "C01.sinks", "C09.entrypaths", 5), aliasRuleFiltered(ruleC01Guards, "C01.guards", "C09.nametest", 1, func(o Oblig) bool {
+			ruleRootSymmetric("C09.symmetric"), ruleLinkPrecise("C09.linkprecise"), ruleC09Answers, ruleLocalMemo("C09.localmemo"), ruleGuardOwnField("C09.metaguard"), ruleMetaVerbatim("C09.metaverbatim"), ruleExtractOnlyUnpacks("C09.extractonly"), aliasRule(ruleC01Sinks, "C01.sinks", "C09.entrypaths", 5), ruleIllegalSlugOnlyFromJudges("C09.judgesonly"), aliasRuleFiltered(ruleC01Guards, "C01.guards", "C09.nametest", 1, func(o Oblig) bool {
 				return strings.Contains(o.Key, "containment") || strings.Contains(o.Key, "success return")
 			}), aliasRuleFiltered(ruleC01Walk, "C01.walk", "C09.walked", 1, func(o Oblig) bool { return strings.Contains(o.Key, "below the destination") }), ruleRestore("C09.restore"), ruleMeta("C09.meta"), ruleC04Accept2("C09.links"), ruleEntryNameAsSpelled("C09.namekept"), ruleNameAgreement("C09.names", "sourcebundle"), aliasRule(ruleC02Omit, "C02.omit", "C09.omit", 3), ruleRefusalsOfPack("C09.packrefusals"), aliasRuleFiltered(ruleBuilderAbsDir("C10.absdir"), "C10.absdir", "C09.absdir", 1, func(o Oblig) bool { return strings.Contains(o.Key, "rootDir") }),
 			aliasRuleFiltered(ruleC02LinkTarget, "C02.linktarget", "C09.linktarget", 1, func(o Oblig) bool { return strings.Contains(o.Key, "Unpack") }),
@@ -47,7 +47,7 @@ func init() {
 	register("C10", &propDef{
 		Title: "Bundle package directories are sanitised",
 		Rules: []func(*Checker){ruleC10Walked, ruleC10Exits, ruleC10Links, aliasRuleFiltered(ruleC13Names, "C13.names", "C10.hash", 1, func(o Oblig) bool { return strings.Contains(o.Key, "directory name is a content hash") }), ruleC10Tmp, ruleC10Inside, ruleC03PruneAs("C10.ignored"), ruleC03BundleAs("C10.removed"), ruleBuilderAbsDir("C10.absdir"), ruleBundleWalkChain("C10.chain"),
-			aliasRule(ruleC03Parse, "C03.parse", "C10.parse", 3), aliasRule(ruleC03LastWins, "C03.lastwins", "C10.lastwins", 1), aliasRule(ruleC03Glob, "C03.glob", "C10.glob", 3), aliasRule(ruleC03Meta, "C03.meta", "C10.meta", 3), ruleLoaderReturnsRules("C10.loaderrules"), aliasRule(ruleC03MatchErr, "C03.matcherr", "C10.matcherr", 1), ruleMatchByRegexpOnly("C10.byregexp"),
+			aliasRule(ruleC03Parse, "C03.parse", "C10.parse", 3), aliasRule(ruleC03LastWins, "C03.lastwins", "C10.lastwins", 1), aliasRule(ruleC03Glob, "C03.glob", "C10.glob", 3), aliasRule(ruleC03Meta, "C03.meta", "C10.meta", 3), ruleLoaderReturnsRules("C10.loaderrules"), ruleLoadedRulesReachTheWalk("C10.loadedrules"), aliasRule(ruleC03MatchErr, "C03.matcherr", "C10.matcherr", 1), ruleMatchByRegexpOnly("C10.byregexp"),
 			// the package's own rule file is found the way Pack finds it: a link to a regular file inside the package is a rule file
 			ruleDefaultRulesOrder("C10.defaults"),
 			aliasRuleFiltered(ruleC03RuleFile, "C03.rulefile", "C10.rulefile", 1, func(o Oblig) bool { return strings.Contains(o.Key, "LoadPackageIgnoreRules") })},
@@ -66,7 +66,7 @@ func init() {
 	})
 	register("C18", &propDef{
 		Title: "Bundle path lookups stay inside the bundle and invert each other",
-		Rules: []func(*Checker){ruleC18DirName, ruleC18Join, ruleC18Reverse, ruleRootSymmetric("C18.symmetric"), ruleCutFoundNotRefused("C18.pkgroot"), ruleDirNameAsWritten("C18.rawname"), ruleForwardPathLexical("C18.lexicalforward"), ruleForwardRefusesUnknownOnly("C18.forward"), ruleAbsOfTheGivenPath("C18.absarg"), ruleNoRunTimeGlobals("C18.noglobals"), aliasRuleFiltered(ruleBuilderAbsDir("C10.absdir"), "C10.absdir", "C18.absroot", 1, func(o Oblig) bool { return strings.Contains(o.Key, "rootDir") })},
+		Rules: []func(*Checker){ruleC18DirName, ruleC18Join, ruleC18Reverse, ruleRootSymmetric("C18.symmetric"), ruleCutFoundNotRefused("C18.pkgroot"), ruleDirNameAsWritten("C18.rawname"), ruleForwardPathLexical("C18.lexicalforward"), ruleForwardRefusesUnknownOnly("C18.forward"), ruleAbsOfTheGivenPath("C18.absarg"), ruleNoRunTimeGlobals("C18.noglobals"), aliasRuleFiltered(ruleBuilderAbsDir("C10.absdir"), "C10.absdir", "C18.absroot", 1, func(o Oblig) bool { return strings.Contains(o.Key, "rootDir") }), ruleSubPathJudgedAsGiven("C18.subpathasgiven")},
 		NotDecided: []string{
 			"inversion as an equation on strings (forward then reverse lookup returning the same path)",
 		},
